@@ -12,7 +12,10 @@ PROPS = {
         "rule": "cases = end-to-end runs (the count in `cases`) plus 25 manager histories per run: the C12 event histories on the real Session "
                 "(connect, bitfield, have, choke/unchoke, interest, PieceDone, PieceCancel, kill; end game and normal mode), compared step by step "
                 "with the manager model that T2/T3 are proved on, with T3 (the number of pieces not owned never increases) evaluated on the "
-                "implementation's own snapshots; every end-to-end case is one run of the real Session::run in a child process (scratch directory, loopback tracker, fixed port 6881 "
+                "implementation's own snapshots; plus 5 connection-bookkeeping histories per run (`cand`: tracker replies listing 0..15 peers incl. "
+                "connected, queued and repeated ones and more than eleven, tracker failures, harness-added incoming connections, bitfields that offer "
+                "nothing, unchoke/done/cancel, KillReq through the real handle_kill_req; candidates, peer records, tracker-handle flag compared after "
+                "every command with the model Swarm/Cand, T5 evaluated on the implementation's snapshots first); every end-to-end case is one run of the real Session::run in a child process (scratch directory, loopback tracker, fixed port 6881 "
                 "behind a lock file): piece length in {5,16,100,16384,20000,40000}, 1..4 files with lengths in {0, pl, <pl, random} (total up to 12 "
                 "pieces), content a function of the seed; 1..3 honest peers among which every piece is spread (each piece at one random peer plus "
                 "1/3 chance at each other), 0..2 extra peers with random pieces that disconnect after 0..2 blocks or in the middle of a Piece message; "
@@ -212,7 +215,11 @@ PROPS = {
                 "a failing dictionary in front; truncations; random strings over the bencode alphabet; compared: error kind or the ordered "
                 "(address:port, id) list of TrackerResp::peers() with the model; one case in sixteen is `fetch`: the real TrackerClient::run answered on "
                 "the loopback with a status in {200,201,202,400,403,404,500,503} and such a body (two thirds parse; peer ids are random bytes), the "
-                "first command the task sends to the manager compared with exchange(status, body). One case per run (four in the thorough tier: k = 0, 1, 3 and 12 "
+                "first command the task sends to the manager compared with exchange(status, body). n/25 cases are connection-bookkeeping histories "
+                "(`cand`, as in C02: what handle_tracker_cmd does with a reply in any manager state, T5); two cases (seven in the thorough tier) are "
+                "`respawn`: the real manager loses 1..5 connections with no candidate left while its tracker task retries against a loopback tracker "
+                "that answers exactly one announce well and refuses all others - the manager must take the reply without waiting (T6), no announce "
+                "may follow. One case per run (four in the thorough tier: k = 0, 1, 3 and 12 "
                 "listed peers) is e2e: the real Session::run in a child process against a loopback tracker that fails k times (HTTP 500, garbage, failure "
                 "reason, non-UTF-8 reason, connection closed) before a good reply; observed: number of announces, whether a new connection to the "
                 "listening port gets its handshake answered while announces fail, and handshakes arriving at the listed fake peers; compared with "
